@@ -121,3 +121,16 @@ Theorem C14_tree_iter_is_naive_folding_padded :
                nth (i - 1) (fold_tree chs coeffs) [] = zs ++ by_level i (tree_iter chs coeffs).
 Proof. exact @tree_iter_is_naive_folding_padded. Qed.
 Print Assumptions C14_tree_iter_is_naive_folding_padded.
+
+(* the second iterator, FoldedPolynomialStreamIter (it reads two coefficients at a time whenever the top of its stack is not a
+   level-0 entry and yields only the items of the last level): on a stream of complete blocks, for every depth >= 1, it yields
+   exactly the last naive folding - the level-depth items of the tree iterator.  Partial: lengths needing zero padding stay with
+   the correspondence for this iterator *)
+From PC Require Import Proofs.StreamIterS.
+Theorem C14_stream_iter_is_last_folding_partial :
+  forall (FO : FieldOps) (FL : FieldLaws FO) chs,
+    (1 <= length chs)%nat ->
+    forall bs, Forall (fun b => length b = (2 ^ length chs)%nat) bs ->
+    stream_iter chs (concat bs) = by_level (length chs) (tree_iter chs (concat bs)).
+Proof. exact @stream_iter_is_last_folding. Qed.
+Print Assumptions C14_stream_iter_is_last_folding_partial.
